@@ -359,6 +359,50 @@ def guarded_everywhere(db, f, event_pat, guard_pat, want, depth=2, _seen=None):
     return n, bad
 
 
+def _inner_bodies(db, f, t):
+    inner = [db.body_of(g) for g in db.callee_fns(t)]
+    for a in t.get("args", []):
+        p = op_place(a)
+        if p is None:
+            continue
+        for r in f.cfg.origins(p["l"]):
+            if r[0] == "agg" and r[3]["r"].get("x") in ("closure", "coroutine"):
+                g = db.fns.get(r[3]["r"]["def"])
+                if g is not None:
+                    inner.append(g)
+    return inner
+
+
+def ordered_everywhere(db, f, first_pat, second_pat, depth=2, _seen=None):
+    """Helper-aware ORD: every call matching second_pat that f reaches (directly or inside helpers / closures) is
+    dominated by a call that (may-)reaches first_pat — in the function that contains it, or at the call site of the
+    helper that contains both. Returns (n_second_events, [unordered (fn, bb)])."""
+    _seen = _seen if _seen is not None else set()
+    if f.id in _seen:
+        return 0, []
+    _seen.add(f.id)
+    s1 = Summaries(db, first_pat, depth=depth)
+    s2 = Summaries(db, second_pat, depth=depth)
+    e1 = s1.event_blocks(f, "may", depth=depth)
+    n, bad = 0, []
+    for bb in s2.event_blocks(f, "may", depth=depth):
+        t = f.blocks[bb]["t"]
+        if any(a != bb and f.cfg.dominates(a, bb) for a in e1):
+            n += 1
+            continue
+        if call_matches(t, second_pat) or depth <= 0:
+            n += 1
+            bad.append((f, bb))
+            continue
+        for g in _inner_bodies(db, f, t):
+            if not s2.may(g, depth - 1):
+                continue
+            k, b2 = ordered_everywhere(db, g, first_pat, second_pat, depth - 1, _seen)
+            n += k
+            bad.extend(b2)
+    return n, bad
+
+
 def discr_edges(fn, call_bb):
     """For a call returning an enum (Option/Result/Poll/ControlFlow...) at call_bb:
     list of (switch_bb, {variant_index_str: target}, otherwise)."""
